@@ -1054,6 +1054,7 @@ func (s *Server) handleInputCommand(client *Client, msg *Message) error {
 					} else {
 						res = string(out)
 						contentType = "application/vnd.mapbox-vector-tile"
+						extraNL = 0 // a binary body: no line terminator
 					}
 				}
 			}
